@@ -53,6 +53,9 @@ THEOREMS = [
     "C19.sqlalchemy_name_ne_all",
     "C19.invalid_identifier_all_ne_defined",
     "C19.ensure_valid_not_always_valid",
+    "C19.ensure_valid_id",
+    "C19.optimise_two_statements_one_module",
+    "C19.C19_full_false",
 ]
 EMITS = ["argparse", "class", "function", "json_schema", "pydantic", "sqlalchemy", "sqlalchemy_hybrid", "sqlalchemy_table"]
 PARSES = EMITS + ["infer"]
@@ -482,7 +485,12 @@ def gen_cli_case(r, k):
     kind = r.choice(["class", "class", "class", "function", "function", "argparse", "json", "mixed"])
     n = 1 if r.random() < 0.35 else r.randint(2, 5)
     case = {"id": k, "kind": kind, "emit": r.choice(EMITS), "tpl": r.choice(CLI_TEMPLATES), "infer": r.random() < 0.4,
-            "prepend": r.choice(PREPENDS), "imports_file": r.choice(IMPORT_FILES), "exists": r.random() < 0.2, "phase": 0}
+            "prepend": r.choice(PREPENDS), "imports_file": r.choice(IMPORT_FILES), "exists": r.random() < 0.2, "phase": 0, "json_basename": None}
+    if r.random() < 0.12:
+        # the region where import inference can succeed at all: one symbol, one module table, no second import statement
+        kind, n = r.choice(["class", "function"]), 1
+        case.update(kind=kind, emit=r.choice(["class", "class", "sqlalchemy", "sqlalchemy_table"]), infer=True, imports_file=r.choice([None, None, "X = 1\n"]),
+                    prepend=r.choice([None, "PREPENDED = 1\n", '"""Module doc"""\n', "from __future__ import annotations\nimport os\n"]), exists=False)
     if kind == "json":
         import cdd.json_schema.emit
         from collections import OrderedDict
@@ -497,7 +505,10 @@ def gen_cli_case(r, k):
         case["parse"] = r.choice(["json_schema", "json_schema", "infer"])
         return case
     names = r.sample(ENTRY_NAMES, n)
-    ekinds = [kind if kind != "mixed" else r.choice(["class", "function", "argparse"]) for _ in names]
+    mixed_parse = r.choice(["infer", "class", "function"])
+    # an argparse function read with `--parse function` is a different interface (one parameter `argument_parser`): keep it out of that mix
+    mixed_kinds = ["class", "function"] if mixed_parse == "function" else ["class", "function", "argparse"]
+    ekinds = [kind if kind != "mixed" else r.choice(mixed_kinds) for _ in names]
     srcs = []
     for nm, ek in zip(names, ekinds):
         for _ in range(20):
@@ -510,7 +521,7 @@ def gen_cli_case(r, k):
             raise core.HarnessError("could not generate an input entry of kind %s" % ek)
     head = r.choice(["", "from typing import Dict, List, Literal, Optional, Union\n\n\n", '"""Input module"""\n\nimport os\n\n\n'])
     case["input_text"] = head + "\n\n\n".join(srcs) + "\n"
-    case["parse"] = (r.choice(["infer", "class", "function"]) if kind == "mixed" else r.choice([kind, kind, "infer"]))
+    case["parse"] = mixed_parse if kind == "mixed" else r.choice([kind, kind, "infer"])
     if not oracle_entries(case):
         case["parse"] = "infer"  # the quantifier starts at one entry
     return case
@@ -882,37 +893,103 @@ def oracle(case, res):
     return fails
 
 
+CASE_FIELDS = ("kind", "emit", "tpl", "infer", "prepend", "imports_file", "exists", "parse", "input_text", "json_basename", "phase")
+
+
+def case_key(c):
+    return {k: c.get(k) for k in CASE_FIELDS}
+
+
+W_CLASS = "class Alpha(object):\n    \"\"\"\n    Alpha doc\n\n    :cvar a: the a\n    \"\"\"\n\n    a: Optional[int] = 5\n"
+W_CLASS2 = W_CLASS + "\n\nclass Beta(object):\n    \"\"\"\n    Beta doc\n\n    :cvar b: the b\n    \"\"\"\n\n    b: List[int] = None\n"
+W_ARGPARSE = ("def set_cli_args(argument_parser):\n    \"\"\"\n    Set CLI arguments\n\n    :param argument_parser: argument parser\n    :type argument_parser: ```ArgumentParser```\n\n"
+              "    :return: argument_parser\n    :rtype: ```ArgumentParser```\n    \"\"\"\n    argument_parser.description = 'Alpha doc'\n"
+              "    argument_parser.add_argument('--a', type=int, help='the a', required=True, default=5)\n    return argument_parser\n")
+W_JSON = json.dumps({"$id": "https://example.com/alpha.schema.json", "$schema": "https://json-schema.org/draft/2020-12/schema", "description": "Alpha doc",
+                     "type": "object", "properties": {"a": {"default": 5, "description": "the a", "type": "integer"}}, "required": ["a"]})
+
+
+def _w(text, **kw):
+    c = {"kind": "class", "emit": "class", "tpl": "{name}Config", "infer": False, "prepend": None, "imports_file": None, "exists": False, "parse": "class",
+         "input_text": text, "json_basename": None, "phase": 0}
+    c.update(kw)
+    return c
+
+
+def _cls(attrs):
+    doc = "".join("    :cvar %s: the %s\n" % (a.split(":")[0], a.split(":")[0]) for a in attrs)
+    return "class Alpha(object):\n    \"\"\"\n    Alpha doc\n\n%s    \"\"\"\n\n%s" % (doc, "".join("    %s\n" % a for a in attrs))
+
+
+def witness_cases():
+    """One minimal input per known finding (re-verified on the real CLI in every run) and positive controls."""
+    return [
+        _w(W_CLASS),                                                              # control: plain success
+        _w(W_CLASS, infer=True),                                                  # control: inference succeeds (one symbol, one module)
+        _w(W_CLASS2, prepend='"""Doc"""\nimport sys\nfrom __future__ import annotations\nX = 1\n'),  # control: ordering
+        _w(W_CLASS, exists=True),                                                 # control: the guard
+        _w(W_CLASS, exists=True, emit="json_schema"),
+        _w(W_CLASS, emit="function"),
+        _w(W_CLASS, emit="pydantic"),
+        _w(W_CLASS, emit="argparse", infer=True),
+        _w(W_ARGPARSE, kind="argparse", parse="argparse"),
+        _w(W_ARGPARSE, kind="argparse", parse="infer"),
+        _w(W_JSON, kind="json", parse="infer", json_basename="alpha.json"),
+        _w(W_JSON, kind="json", parse="json_schema", json_basename="alpha.json"),
+        _w(W_JSON, kind="json", parse="json_schema", json_basename="alpha.json", emit="sqlalchemy"),
+        _w(W_CLASS, emit="sqlalchemy"), _w(W_CLASS, emit="sqlalchemy_hybrid"), _w(W_CLASS, emit="sqlalchemy_table"),
+        _w(W_CLASS, emit="sqlalchemy_table", tpl="{name}"),
+        _w(_cls(["a: Dict[str, int] = None"]), emit="sqlalchemy", tpl="{name}"),
+        _w(W_CLASS, tpl="{name}-cfg"),
+        _w(W_CLASS, tpl="é{name}"),
+        _w(W_CLASS, tpl="-1{name}"),
+        _w(W_CLASS, imports_file="import os\nimport sys\n"),
+        _w(W_CLASS, imports_file="import os\n", infer=True),
+        _w(W_CLASS2, infer=True),
+        _w(W_CLASS, prepend="import os", imports_file="import sys\n"),
+        _w(W_CLASS, prepend="import sys\nfrom __future__ import annotations\n", imports_file="import os\n"),
+        _w(_cls(["a: Union[int, float] = None"]), emit="json_schema"),
+        _w(_cls(["a: int = 5", "return_type: bool"]), emit="argparse"),
+        _w(_cls(["x1: Optional[float] = None", "epochs: Dict[str, Union[int, float]]"]), emit="sqlalchemy_hybrid", infer=True, tpl="{name}"),
+    ]
+
+
 def cli_matrix(chk: core.Check):
     r = chk.rng
     n = 320 if chk.quick else 4000
     tmp = tempfile.mkdtemp(prefix="c19run_", dir="/tmp")
     try:
-        cases = []
+        cases = witness_cases()
+        cdir = core.VERIF / "corpus" / "C19"
+        if cdir.is_dir():
+            for f in sorted(cdir.glob("*.json")):
+                cases.append(json.loads(f.read_text())["case"])
         for k in range(n):
-            c = gen_cli_case(r, k)
+            cases.append(gen_cli_case(r, k))
+        for c in cases:
             c["tmp"] = tmp
-            cases.append(c)
         results = core.pmap(run_cli_case, cases, chunksize=4)
     finally:
         shutil.rmtree(tmp, ignore_errors=True)
     reqs = [gen_request(c, x) for c, x in zip(cases, results) if not x.get("timeout")]
     model = iter(core.model_batch(reqs))
     n_dis = n_out = n_contract = n_improper = 0
-    dist = {"emit": {}, "parse": {}, "input": {}, "outcome": {}, "entries": {}, "flags": {}}
+    dist = {"emit": {}, "parse": {}, "input": {}, "outcome": {}, "entries": {}, "flags": {}, "oracle": {}}
 
     def bump(k, v):
         dist[k][str(v)] = dist[k].get(str(v), 0) + 1
 
     for c, x in zip(cases, results):
-        key = {k: c[k] for k in ("kind", "emit", "tpl", "infer", "prepend", "imports_file", "exists", "parse", "input_text")}
+        key = case_key(c)
         if x.get("timeout"):
-            chk.count(("cli", json.dumps(key, sort_keys=True)), False)
-            for sig, what in oracle(c, x):
-                chk.failure(sig, what, {"case": key})
-            continue
+            # termination is C11's property; a CLI run that does not finish in 120 s under load is a harness problem (exit 2), not a violation of C19
+            raise core.HarnessError("`python -m cdd gen` did not finish within 120 s on %s" % json.dumps(key)[:600])
         mo = next(model)
-        chk.count(("cli", json.dumps(key, sort_keys=True)), x["rc"] == 0 and not c["exists"])
-        bump("emit", c["emit"]); bump("parse", c["parse"]); bump("input", c["kind"]); bump("entries", len(x["world"]))
+        chk.count(("cli", json.dumps(key, sort_keys=True)), x["rc"] == 0 or c["exists"])
+        bump("emit", c["emit"])
+        bump("parse", c["parse"])
+        bump("input", c["kind"])
+        bump("entries", len(x["world"]))
         bump("outcome", "guard-refused" if c["exists"] and x["rc"] else ("ok" if x["rc"] == 0 else "raises:%s" % x["exc"]))
         bump("flags", "infer=%s prepend=%s imports_file=%s exists=%s" % (c["infer"], c["prepend"] is not None, c["imports_file"] is not None, c["exists"]))
         rv, mv = real_view(c, x), model_view(c, mo)
@@ -940,6 +1017,12 @@ def cli_matrix(chk: core.Check):
                     chk.disagreement("C19 correspondence: emitters' naming contract (GenModule.symbolName)", {"case": key, "entry": w["name"]}, got, e)
         for sig, what in oracle(c, x):
             chk.failure(sig, what, {"case": key})
+        if x["rc"] == 0 and not c["exists"]:
+            bump("oracle", "written output examined")
+            if c["infer"] and c["emit"] != "json_schema":
+                bump("oracle", "imports-cover clause evaluated (inference succeeded)")
+        elif c["exists"]:
+            bump("oracle", "guard clause evaluated")
         if x["rc"] == 0 and not c["exists"] and c["emit"] != "json_schema":
             chk.sample({"args": cli_args(c, "inp.py", "out.py", "imps.py" if c["imports_file"] else None), "output_head": x["out"][:300]}, limit=3)
     chk.oblige("correspondence: real CLI `python -m cdd gen` = GenModule.gen + mainGen on %d runs (%d outside the model)" % (len(cases), n_out),
@@ -964,10 +1047,51 @@ def _raw_name(stmt):
 def run(chk: core.Check) -> int:
     _cdd()
     chk.lean(MODULE, THEOREMS)
+    chk.trusted_base += [
+        "hand-written model lean/CddVerif/Model/GenModule.lean + GenImports.lean of main's gen guard, gen, file_to_input_mapping, get_parser/infer, get_emit_kwarg, "
+        "the emitters' signatures and naming rules, get_functions_and_classes, gen_module (text gluing, __all__ rendering, re-ordering), infer_imports/get_types/"
+        "symbol_to_import/optimise_imports, ensure_valid_identifier, str.format on the template; tied to the code by the component ops and by whole CLI runs",
+        "the per-format parsers and emitters are parameters of the model (their per-entry results are computed by the real code in-process and handed to the model); "
+        "only their naming rule (GenModule.symbolName) is modelled, and compared with the emitted symbol on every run",
+        "expressions are ast.unparse text in PyAst: the `Name` ids of an expression are recovered by a lexer (GenImports.exprNames); it is exact on the expression "
+        "fragment the class / argparse / SQLAlchemy emitters produce; emitted trees whose Name nodes hold a whole expression are detected by the harness and set aside",
+        "ast.parse(ast.unparse(x)) = x on emitted statements, json, the file system and argparse are CPython's; type_comment is None on every emitted node",
+        "optimise_imports' seen-key is the string concatenation module+name+asname; the model uses the triple (no collision is possible on the four module tables)",
+        "str.isdigit / str.isidentifier / repr are modelled on ASCII plus printable non-ASCII letters (the generators stay inside)",
+    ]
     component_ops(chk)
     cli_matrix(chk)
-    return chk.finish("wip")
+    for it in chk.kf.items:
+        if it["seen"] == 0:
+            chk.notes.append("finding %s not observed in this run (its witness no longer fails: stale?)" % it["id"])
+    return chk.finish(
+        "component ops: random templates / identifiers / strings / node kinds / statement lists against the real functions; CLI: one witness per known finding and "
+        "positive controls, then random (input kind x 1..5 generated entries x parse explicit/infer x 8 emit kinds x 14 templates x infer-imports x prepend x "
+        "imports-from-file x output exists) runs of the real `python -m cdd gen`; compared: exit status, exception class, file bytes untouched under the guard, "
+        "the written module as an AST (imports, symbols, __all__), JSON $ids; oracle on every real output: compiles, one symbol per entry named by the template, "
+        "__all__ exact and equal to the defined names, each symbol read back by cdd's own parser has the source entry's parameters, every typing/SQLAlchemy Name "
+        "imported under inference, existing file refused and untouched; non-trivial = the run succeeded or the guard was exercised; distinct by full configuration")
 
 
 def replay(path: str) -> int:
-    return 2
+    _cdd()
+    d = json.loads(Path(path).read_text())
+    rp = d.get("replay") or {}
+    if "case" not in rp:
+        print("replay: no CLI case in %s (a broken proof obligation / component op: see `no_longer_checks`)" % path)
+        return 1
+    c = dict(rp["case"])
+    tmp = tempfile.mkdtemp(prefix="c19replay_", dir="/tmp")
+    try:
+        c["tmp"] = tmp
+        x = run_cli_case(c)
+    finally:
+        shutil.rmtree(tmp, ignore_errors=True)
+    print("replay: python -m cdd gen %s -> rc=%s %s" % (" ".join(cli_args(c, c.get("json_basename") or "inp.py", "out.py", "imps.py" if c.get("imports_file") else None)),
+                                                       x.get("rc"), x.get("exc") or ""))
+    fails = oracle(c, x)
+    for sig, what in fails:
+        print("  property fails: %s   %s" % (what, json.dumps(sig, sort_keys=True)))
+    if not fails:
+        print("  property holds on this input")
+    return 1 if fails else 0
